@@ -18,6 +18,7 @@ pub open spec fn pvals<T>(p: Punctuated<T>) -> Seq<T> { ppairs(p).map_values(|x:
 pub open spec fn expr_sig(p: Punctuated<Expression>) -> Seq<Skel> { pvals(p).map_values(|e: Expression| erase(skel(e))) }
 pub open spec fn exprs_wf(p: Punctuated<Expression>) -> bool { forall|i: int| 0 <= i < ppairs(p).len() ==> wf(skel(pair_value(#[trigger] ppairs(p)[i]))) }
 pub assume_specification<T> [Punctuated::<T>::len] (p: &Punctuated<T>) -> (r: usize) ensures r == ppairs(*p).len();
+pub assume_specification<T> [Punctuated::<T>::is_empty] (p: &Punctuated<T>) -> (r: bool) ensures r == (ppairs(*p).len() == 0);
 pub assume_specification<T> [Punctuated::<T>::into_pairs] (p: Punctuated<T>) -> (r: impl Iterator<Item = Pair<T>>) ensures it_rest(&r) == ppairs(p);
 pub assume_specification<T> [Punctuated::<T>::iter] (p: &Punctuated<T>) -> (r: full_moon::ast::punctuated::Iter<'_, T>)
     ensures it_rest(&r).len() == ppairs(*p).len(), forall|i: int| 0 <= i < it_rest(&r).len() ==> *(#[trigger] it_rest(&r)[i]) == pair_value(ppairs(*p)[i]);
@@ -246,10 +247,117 @@ pub fn format_variables(ctx: &Context, variables: &Punctuated<Var>, shape: Shape
             Between("+ (strip_leading_trivia(&var_list).to_string().len()\n            + 3", "+ strip_trailing_trivia(&expr_list).to_string().len());", "+ hole_usize();", why="Display widths of the two lists"),
             Hole("let shape = shape + (strip_leading_trivia(&var_list).to_string().len() + 3);", "let shape = shape + hole_usize();", why="Display width of the variable list"),
         ]),
+        # ---- local assignments ----
+        Raw(node_specs("LocalAssignment", "n_lasg", [("local_token", "TokenReference", "-"), ("names", "Punctuated<TokenReference>", "ref"), ("equal_token", "TokenReference", "opt"), ("expressions", "Punctuated<Expression>", "ref")]) + """
+pub assume_specification [LocalAssignment::new] (names: Punctuated<TokenReference>) -> (r: LocalAssignment) ensures n_lasg_names(&r) == names;
+#[cfg(feature = "lua54")] #[verifier::external_type_specification] #[verifier::external_body] pub struct ExAttribute(full_moon::ast::lua54::Attribute);
+#[cfg(feature = "luau")] #[verifier::external_type_specification] #[verifier::external_body] pub struct ExTypeSpecifier(full_moon::ast::luau::TypeSpecifier);
+#[cfg(feature = "lua54")] pub assume_specification [LocalAssignment::with_attributes] (n: LocalAssignment, v: Vec<Option<full_moon::ast::lua54::Attribute>>) -> (r: LocalAssignment)
+    ensures n_lasg_names(&r) == n_lasg_names(&n), n_lasg_equal_token(&r) == n_lasg_equal_token(&n), n_lasg_expressions(&r) == n_lasg_expressions(&n);
+#[cfg(feature = "luau")] pub assume_specification [LocalAssignment::with_type_specifiers] (n: LocalAssignment, v: Vec<Option<full_moon::ast::luau::TypeSpecifier>>) -> (r: LocalAssignment)
+    ensures n_lasg_names(&r) == n_lasg_names(&n), n_lasg_equal_token(&r) == n_lasg_equal_token(&n), n_lasg_expressions(&r) == n_lasg_expressions(&n);
+#[cfg(feature = "lua54")] #[verifier::external_body] pub fn format_attributes(ctx: &Context, assignment: &LocalAssignment, shape: Shape) -> Vec<Option<full_moon::ast::lua54::Attribute>> { unimplemented!() }
+#[cfg(feature = "luau")] #[verifier::external_body] pub fn format_type_specifiers(ctx: &Context, assignment: &LocalAssignment, shape: Shape) -> Vec<Option<full_moon::ast::luau::TypeSpecifier>> { unimplemented!() }
+pub open spec fn name_sig(p: Punctuated<TokenReference>) -> Seq<int> { pvals(p).map_values(|t: TokenReference| tok_of(t)) }
+impl UpdateLeadingTrivia for Punctuated<TokenReference> {
+    open spec fn same_sem(&self, r: &Self) -> bool { name_sig(*r) == name_sig(*self) }
+    open spec fn lead_ok(&self, t: FormatTriviaType, r: &Self) -> bool { true }
+    open spec fn on_new_line(&self) -> bool { other_nl(*self) }
+    open spec fn rest_same(&self, r: &Self) -> bool { true }
+    #[verifier::external_body] fn update_leading_trivia(&self, leading_trivia: FormatTriviaType) -> (r: Self) { unimplemented!() }
+}
+impl GetLeadingTrivia for Punctuated<TokenReference> {
+    open spec fn leads_with_comment(&self) -> bool { other_lc(*self) }
+    #[verifier::external_body] fn leading_trivia(&self) -> Vec<Token> { unimplemented!() }
+    #[verifier::external_body] fn has_leading_comments(&self, search: CommentSearch) -> (r: bool) { unimplemented!() }
+    #[verifier::external_body] fn leading_comments(&self) -> Vec<Token> { unimplemented!() }
+}
+impl GetTrailingTrivia for Punctuated<TokenReference> {
+    open spec fn ends_open(&self) -> bool { !other_closed(*self) }
+    #[verifier::external_body] fn trailing_trivia(&self) -> Vec<Token> { unimplemented!() }
+    #[verifier::external_body] fn has_trailing_comments(&self, search: CommentSearch) -> (r: bool) { unimplemented!() }
+    #[verifier::external_body] fn trailing_comments(&self) -> Vec<Token> { unimplemented!() }
+}
+impl VNode for Punctuated<TokenReference> {
+    open spec fn key(&self) -> NodeKey { NodeKey::Other(other_key(*self)) }
+    open spec fn line_open(&self) -> bool { other_line_open(*self) }
+    #[verifier::external_body] fn start_position(&self) -> (r: Option<Position>) { unimplemented!() }
+    #[verifier::external_body] fn end_position(&self) -> (r: Option<Position>) { unimplemented!() }
+    #[verifier::external_body] fn leading_trivia_vec(&self) -> (r: Vec<&Token>) { unimplemented!() }
+}
+// try_format_punctuated(ctx, names, shape, format_token_reference, Some(1)): verified from the generic contract
+pub fn format_names(ctx: &Context, names: &Punctuated<TokenReference>, shape: Shape) -> (r: Punctuated<TokenReference>)
+    ensures ppairs(r).len() == ppairs(*names).len(), name_sig(r) == name_sig(*names)
+{
+    let r = try_format_punctuated(
+        ctx,
+        names,
+        shape,
+        format_token_reference,
+        Some(1),
+    );
+    proof { assert forall|i: int| 0 <= i < ppairs(r).len() implies tok_of(pair_value(#[trigger] ppairs(r)[i])) == tok_of(pair_value(ppairs(*names)[i])) by { assert(by_item_formatter_modulo_trivia(format_token_reference, ctx, pair_value(ppairs(*names)[i]), pair_value(ppairs(r)[i]))); }
+            assert(name_sig(r) =~= name_sig(*names)); }
+    r
+}
+""", module="formatters::assignment"),
+        Fn(GEN, "format_token_reference", mode="stub", proved_in="tok", contract="ensures tok_of(r) == tok_of(*token_reference),"),
+        Fn(ASG, "names_below_local_comment", contract="ensures name_sig(r) == name_sig(name_list), //# C02.local_assignment_same"),
+        Fn(ASG, "format_local_no_assignment", contract="""
+    ensures name_sig(n_lasg_names(&r)) == name_sig(n_lasg_names(assignment)), //# C02.local_assignment_same
+            ppairs(n_lasg_expressions(&r)).len() == 0 && n_lasg_equal_token(&r) is None, //# C02.local_assignment_same
+""", edits=[
+            Hole("""try_format_punctuated(
+        ctx,
+        assignment.names(),
+        shape,
+        format_token_reference,
+        Some(1),
+    )""", "format_names(ctx, assignment.names(), shape)", kind="wrapper", why="generic list formatter with format_token_reference: verified wrapper"),
+            Between("let attributes = assignment\n        .attributes()", ".collect();", "let attributes = format_attributes(ctx, assignment, shape);", why="closure chain over the Lua 5.4 attributes of the names"),
+            Between("let type_specifiers: Vec<Option<TypeSpecifier>> = assignment\n        .type_specifiers()", ".collect();", "let type_specifiers = format_type_specifiers(ctx, assignment, shape);", why="closure chain over the Luau type specifiers of the names"),
+        ]),
+        Fn(ASG, "format_local_assignment_no_trivia", contract="""
+    requires exprs_wf(n_lasg_expressions(assignment)),
+             ppairs(n_lasg_expressions(assignment)).len() > 0 ==> n_lasg_equal_token(assignment) is Some,   // parsed input: values come with an `=`
+    ensures name_sig(n_lasg_names(&r)) == name_sig(n_lasg_names(assignment)), //# C02.local_assignment_same
+            expr_sig(n_lasg_expressions(&r)) == expr_sig(n_lasg_expressions(assignment)), //# C02.local_assignment_same
+            (n_lasg_equal_token(&r) is Some) == (ppairs(n_lasg_expressions(assignment)).len() > 0), //# C02.local_assignment_same
+""", edits=[
+            Between("let contains_comments = assignment\n            .equal_token()", "|| trivia_util::punctuated_inline_comments(assignment.expressions(), true);", "let contains_comments = hole_bool();", why="comment search over `=` and the values: chooses the layout only"),
+            Hole("""try_format_punctuated(
+            ctx,
+            assignment.names(),
+            shape.with_infinite_width(),
+            format_token_reference,
+            Some(1),
+        )""", "format_names(ctx, assignment.names(), shape.with_infinite_width())", kind="wrapper", why="generic list formatter with format_token_reference: verified wrapper"),
+            Hole("""try_format_punctuated(
+                ctx,
+                assignment.names(),
+                shape,
+                format_token_reference,
+                Some(1),
+            )""", "format_names(ctx, assignment.names(), shape)", kind="wrapper", why="generic list formatter with format_token_reference: verified wrapper"),
+            Hole("""format_punctuated(
+            ctx,
+            assignment.expressions(),
+            shape.with_infinite_width(),
+            format_expression,
+        )""", "format_expressions_single(ctx, assignment.expressions(), shape.with_infinite_width())", kind="wrapper", why="generic list formatter with format_expression: verified wrapper"),
+            Between("let attributes: Vec<Option<_>> = assignment\n            .attributes()", ".collect();", "let attributes = format_attributes(ctx, assignment, shape);", why="closure chain over the Lua 5.4 attributes of the names"),
+            Between("let type_specifiers: Vec<Option<TypeSpecifier>> = assignment\n            .type_specifiers()", ".collect();", "let type_specifiers = format_type_specifiers(ctx, assignment, shape);", why="closure chain over the Luau type specifiers of the names"),
+            Between("let mut type_specifier_len = 0;", "// If the var list ended with a comment, we need to hang the equals token", "let mut type_specifier_len = hole_usize();", why="folds over the printed widths of attributes / type specifiers"),
+            Between("let mut name_list_comment =\n            name_list.has_trailing_comments(trivia_util::CommentSearch::Single);", "name_list_comment |= trivia_util::ends_with_singleline_comment(type_specifier);\n        }", "let mut name_list_comment = hole_bool();", why="does the name list (with its attribute / type) end with a line comment: chooses whether `=` hangs"),
+            Hole('const EQUAL_TOKEN_LEN: usize = "= ".len();', "let EQUAL_TOKEN_LEN: usize = hole_usize();", why="str::len in a const: a width"),
+            Between("let singleline_shape = shape\n            + (strip_leading_trivia(&name_list).to_string().len()", "+ strip_trailing_trivia(&expr_list).to_string().len());", "let singleline_shape = shape + hole_usize();", why="Display widths"),
+            Between("let shape = shape\n                + (strip_leading_trivia(&name_list).to_string().len()", "+ type_specifier_len);", "let shape = shape + hole_usize();", why="Display widths"),
+        ]),
     ]
     return its
 
 LABELS = {
+    "C02.local_assignment_same": dict(props=["C02"], text="format_local_assignment_no_trivia / format_local_no_assignment: the same names and the same values, in order; an `=` exactly when there are values"),
     "C02.assignment_same": dict(props=["C02"], text="format_assignment_no_trivia: the same variables and the same values, in order, whichever layout is chosen"),
     "C02.assignment_values_same": dict(props=["C02"], text="attempt_assignment_tactics: whichever layout tactic wins, the list has as many values as the input, value i is the input's value i modulo redundant parentheses, and the `=` token is the `=`"),
     "C02.assignment_rehang_loop": dict(props=["C02"], text="attempt_assignment_tactics, one value per line: every value pushed so far — kept as formatted, or hung again from the original expression — is the input's value in the same place"),
